@@ -325,7 +325,9 @@ def run(R):
             dpath = os.path.join(R.tmp, f"in{idx}", f"{tags[di]}_{di}")
             scheme = rng.choice(["padded", "padded", "unpadded"])
             R.count(f"slice-names:{scheme}")
-            write_slices(dpath, st, fmt, np, slice_names(rng, st.shape[0], fmt, scheme))
+            names = slice_names(rng, st.shape[0], fmt, scheme)
+            write_slices(dpath, st, fmt, np, names)
+            j.setdefault("slice_names", []).append(names)
             dirs.append(dpath)
         if ndirs > 1:
             R.count("dir-order:" + ("lexicographic" if dirs == sorted(dirs) else "not-lexicographic"))
@@ -356,8 +358,19 @@ def run(R):
         reqs.append(("slices_run", [j["code"].encode(), j["size"], j["chunk"], nch,
                                     [[n, h, w, (kch if kch > 1 else Atom("none"))] for kch in kchs]]))
     replies = R.model.batch(reqs)
+    # stack order of every directory per the model: lexicographic order of the file names (bytes),
+    # offered to the model in shuffled order
+    order_reqs = []
+    for j, *_rest in prepared:
+        for names in j.get("slice_names", []):
+            shuffled = list(names)
+            rng.shuffle(shuffled)
+            order_reqs.append(("slice_order", [nm.encode() for nm in shuffled]))
+    order_replies = iter(R.model.batch(order_reqs))
 
     for (j, stacks, dirs, dest, nch, dt, out_dt, kchs, opts, (w, h, n)), rep in zip(prepared, replies):
+        m_orders = [[b.decode() for b in next(order_replies)] for _ in j.get("slice_names", [])]
+        observed = {"how": None, "lists": None}
         code, size, chunk = j["code"], j["size"], j["chunk"]
         argv = ["slices-to-precomputed"] + dirs + [dest, "--input-orientation", j["case_code"]] + opts
         if j["sub"]:
@@ -386,11 +399,25 @@ def run(R):
                         if api_twice:
                             from pathlib import Path
                             lists = [sorted(Path(d).iterdir()) for d in dirs]
+                            observed["how"] = "sorted(Path(d).iterdir()), as convert_slices_in_directory does"
+                            observed["lists"] = [[p.name for p in ll] for ll in lists]
                             o = {"flat": "--flat" in opts, "gzip": "--no-gzip" not in opts}
                             slices_to_precomputed.slices_to_raw_chunks(lists, dest, code, options=dict(o))
                             slices_to_precomputed.slices_to_raw_chunks(lists, dest_b, code, options=dict(o))
                             return 0
-                        return slices_to_precomputed.main(list(argv))
+                        # spy on the file lists the command really hands to slices_to_raw_chunks
+                        orig = slices_to_precomputed.slices_to_raw_chunks
+
+                        def spy(slice_filename_lists, *a, **k):
+                            observed["how"] = "lists passed to slices_to_raw_chunks by the command"
+                            observed["lists"] = [[os.path.basename(str(p)) for p in ll]
+                                                 for ll in slice_filename_lists]
+                            return orig(slice_filename_lists, *a, **k)
+                        slices_to_precomputed.slices_to_raw_chunks = spy
+                        try:
+                            return slices_to_precomputed.main(list(argv))
+                        finally:
+                            slices_to_precomputed.slices_to_raw_chunks = orig
                     except SystemExit as exc:
                         return ("exit", exc.code)
             impl = outcome_of(go)
@@ -407,6 +434,23 @@ def run(R):
         R.case(case, nontrivial=n_groups >= 2 or code != "RAS")
         R.count(f"run:{'fwd' if code[-1:] in POSITIVE else 'rev'}:{j['rel']}:{impl[0] if impl[0] != 'Crash' else impl[1]}")
         R.count(f"layout:{j['layout']}:{j['storage']}")
+        if observed["lists"] is None and code in ALL_CODES:
+            from pathlib import Path
+            observed["how"] = "sorted(Path(d).iterdir()) (subprocess run: not observable inside)"
+            observed["lists"] = [[p.name for p in sorted(Path(d).iterdir())] for d in dirs]
+        if observed["lists"] is not None:
+            R.count("slice-order:" + observed["how"].split(" ")[0].split("(")[0])
+            if observed["lists"] != m_orders:
+                R.disagree("stack order of the slice files vs slice_order (lexicographic order of the names)",
+                           dict(case, observed_by=observed["how"]), observed["lists"], m_orders)
+            want_orders = [sorted(names, key=lambda nm: nm.encode()) for names in j.get("slice_names", [])]
+            if m_orders != want_orders:
+                R.violation("extracted slice_order disagrees with byte-wise lexicographic sorting (self-check)",
+                            case, {"model": m_orders, "want": want_orders})
+            if observed["lists"] != want_orders:
+                R.violation("slices are not stacked in the lexicographic order of their file names, or not "
+                            "directory by directory in the order given", dict(case, observed_by=observed["how"]),
+                            {"observed": observed["lists"], "lexicographic": want_orders})
         m_coords, m_res = rep[0], model_outcome(rep[1])
         if impl != m_res:
             R.disagree("slices-to-precomputed outcome vs model", case, impl, m_res)
